@@ -26,6 +26,8 @@ from asimap.pop3_parse import BadPOP3Command, parse_pop3_command
 from asimap.trace import trace
 
 if TYPE_CHECKING:
+    from email.message import EmailMessage
+
     from asimap.mbox import Mailbox
     from asimap.user_server import IMAPUserServer
 
@@ -315,16 +317,30 @@ class POP3CommandHandler:
 
     ##################################################################
     #
+    def _get_msg(self, pop3_num: int) -> "EmailMessage":
+        """
+        Get the message for a POP3 message number of our snapshot.
+
+        The message is looked up by its UID, not by the MH message key it had
+        when the snapshot was taken: message keys are not stable (packing the
+        folder renumbers them and MH hands the key of an expunged message to
+        the next message that is delivered) and we must never return some
+        other message. Raises KeyError if the message no longer exists.
+        """
+        assert self.mbox is not None
+        uid = self.snapshot_uids[pop3_num - 1]
+        return self.mbox.get_msg_by_uid(uid)
+
+    ##################################################################
+    #
     def _get_msg_size(self, pop3_num: int) -> int:
         """
         Get the size of a message in octets, computing lazily and
         caching the result.
         """
         if pop3_num not in self.msg_sizes:
-            assert self.mbox is not None
-            msg_key = self.snapshot_msg_keys[pop3_num - 1]
             try:
-                msg = self.mbox.get_msg(msg_key)
+                msg = self._get_msg(pop3_num)
                 self.msg_sizes[pop3_num] = get_msg_size(msg)
             except (KeyError, FileNotFoundError):
                 # Message disappeared (concurrent modification).
@@ -413,10 +429,8 @@ class POP3CommandHandler:
             await self.client.push("-ERR no such message\r\n")
             return True
 
-        assert self.mbox is not None
-        msg_key = self.snapshot_msg_keys[n - 1]
         try:
-            msg = self.mbox.get_msg(msg_key)
+            msg = self._get_msg(n)
         except (KeyError, FileNotFoundError):
             await self.client.push("-ERR message not available\r\n")
             return True
@@ -521,10 +535,8 @@ class POP3CommandHandler:
             await self.client.push("-ERR invalid number of lines\r\n")
             return True
 
-        assert self.mbox is not None
-        msg_key = self.snapshot_msg_keys[n - 1]
         try:
-            msg = self.mbox.get_msg(msg_key)
+            msg = self._get_msg(n)
         except (KeyError, FileNotFoundError):
             await self.client.push("-ERR message not available\r\n")
             return True
